@@ -59,7 +59,7 @@ FVARS = ["firm_score", "overforecast_penalty", "underforecast_penalty"]
 FINDING_INF = "firm-discount-infinite-obs"
 # harness self-check (core.run_check): counters every complete run must have incremented, one per predicate family / input class
 EXPECT_COUNTS = ["corpus_cases", "guard_boundary_probes", "firm_oracle_grid_points", "firm_oracle_grid_infinite_points", "firm_scalar_threshold_points",
-                 "firm_nonfinite_points", "firm_integer_dtype_points", "murphy_da_link_points", "rms_oracle_grid_points", "rms_dataset_probe_points",
+                 "firm_nonfinite_points", "firm_integer_dtype_points", "murphy_da_link_points", "rms_oracle_grid_points", "rms_oracle_grid_integer_obs_points", "rms_dataset_probe_points",
                  "rms:dataset_vars_checked", "firm:oracle_checked", "firm:oracle_checked_infinite", "rms:oracle_checked", "wfs:oracle_checked",
                  "mwa:oracle_checked", "firm_grid_points", "firm_grid_infinite_points", "murphy_link_points", "murphy_link_infinite_points",
                  "firm_mirror_relations", "firm:ok", "firm:err:ValueError", "firm:assign=upper", "firm:assign=lower", "firm:discount=none",
@@ -477,6 +477,22 @@ def rms_oracle_grid(ctx):
             if not core.close(x, exp):
                 ctx.violation("risk_matrix_score differs from sum_ij w_ij s_j(f_i, y_i) (exact oracle)",
                               {"fcst": fv, "obs": ov, "prob_thresholds": [0.75, 0.25, 0.5], "weights": [1.0, 2.0, 3.5], "threshold_assignment": assign}, exp, x)
+    # observations stored as unsigned / signed integers or booleans (0/1 flags; the function only compares them): same scores
+    n_int = 0
+    for dt in ("uint8", "int64", "bool", "float32"):
+        cs = [(a, b) for a in fvals for b in (0.0, 1.0)]
+        fi = xr.DataArray([[c[0]] for c in cs], dims=["case", "sev"], coords={"case": range(len(cs)), "sev": [0]})
+        oi = xr.DataArray(np.array([[c[1]] for c in cs]).astype(dt), dims=["case", "sev"], coords={"case": range(len(cs)), "sev": [0]})
+        for assign in ("upper", "lower"):
+            st, r = core.call_impl(EM.risk_matrix_score, fi, oi, dw, "sev", "prob", threshold_assignment=assign, preserve_dims="all")
+            for k, (fv, ov) in enumerate(cs):
+                exp = rms_case_oracle([fv], [ov], [0.75, 0.25, 0.5], [[1.0, 2.0, 3.5]], assign)
+                x = float(r.values[k]) if st == "ok" else r
+                n_int += 1
+                if st != "ok" or not core.close(x, exp):
+                    ctx.violation(f"risk_matrix_score with observations stored as {dt} differs from sum_ij w_ij s_j(f_i, y_i) (exact oracle)",
+                                  {"fcst": fv, "obs": ov, "obs dtype": dt, "prob_thresholds": [0.75, 0.25, 0.5], "weights": [1.0, 2.0, 3.5], "threshold_assignment": assign}, exp, x)
+    ctx.count("rms_oracle_grid_integer_obs_points", n_int)
     # decision points with zero weight still belong to the sum: a missing forecast / observation in a zero-weight severity
     # category (or at a zero-weight threshold) makes the case NaN, it is not trimmed away
     dw0 = xr.DataArray([[1.0, 0.0], [2.0, 0.0], [0.0, 0.0]], dims=["prob", "sev"], coords={"prob": [0.25, 0.5, 0.75], "sev": [0, 1]})
